@@ -62,6 +62,9 @@ EnergyGrowth == 4
 (* "modest multiple" of a tolerance (C15) and "modest constant" (C05)         *)
 ModestK == 10
 (* C05 "a modest constant times (atol + rtol |y|) times the problem's own error amplification": the largest value     *)
-(* observed on the unmodified library is 20 (unequal tolerances, very large initial step, 5 steps).                  *)
-AccuracyK == 32
+(* observed on the unmodified library over the 2250 thorough-tier cases is 50 (Richardson-extrapolated midpoint at     *)
+(* 1e-11 and RK108 at 1e-3, both with an initial dt larger than the span: the accepted first step of half the span     *)
+(* carries an error its asymptotic estimate under-reports); 99% of the cases are below 17.  The seeded changes that    *)
+(* this clause catches (tolerances swapped, error estimate scaled) are off by factors of 10^3 and more.                 *)
+AccuracyK == 64
 =============================================================================
